@@ -53,10 +53,10 @@ def m_str_parse(I, a, t, c):
     if 'noodles_vcf' in full or 'Chromosome' in full or 'contig' in full.lower():
         return M._ok(sym('parse', [StrV(list(s))]))
     if '<usize>' in full or '<u64>' in full or '<u32>' in full or '<i32>' in full:
-        try:
+        import re as _re
+        if _re.match(r'^\+?\d+$' if '<i32>' not in full else r'^[+-]?\d+$', s):      # FromStr for the unsigned types rejects a minus sign
             return M._ok(BV(64, int(s)))
-        except ValueError:
-            return Agg('adt:std::result::Result', 1, [Opaque('ParseIntError')])
+        return Agg('adt:std::result::Result', 1, [Opaque('ParseIntError')])
     from . import models_std as _S
     return _S.m_str_parse_prim(I, a, t, c)
 
